@@ -25,7 +25,7 @@ RULE = (
     "content plus every octet string of length <= 1, segment metadata over {none} U {4 continuation states x every "
     "length 0..63}; the full product of the edge alphabets of the three axes; every 2-octet file data string (65536) in "
     "C configurations; the largest file data that fits a 65535-octet data field with and without 63 octets of metadata "
-    "in every configuration; metadata of 64, 65, 255 octets x 4 states in every configuration (refusal); the max-segment "
+    "in every configuration; metadata of 64, 65, 127, 128, 255 octets x 4 states x 4 routes (constructor; setter on a PDU constructed without / with metadata; setter on a decoded PDU) in every configuration (refusal); the max-segment "
     "helper for every configuration x 4 metadata shapes x every M in [base-2, base+40]. Vectors are de-duplicated before "
     "execution and shards partition the configurations, so executed cases are pairwise distinct (non-trivial = distinct)."
 )
@@ -38,7 +38,7 @@ ASSUMPTIONS = [
 CFGS = [{"crc": c, "large": l, "idw": i, "seqw": s, "mode": m, "segctrl": g}
         for c, l, i, s, m, g in itertools.product((0, 1), (0, 1), (1, 2, 4, 8), (1, 2, 4, 8), (0, 1), (0, 1))]
 BIG_LENGTHS = [255, 256, 1024, 4096]
-REFUSED_MD_LENGTHS = [64, 65, 255]
+REFUSED_MD_LENGTHS = [64, 65, 127, 128, 255]
 
 
 def _k(tier):
@@ -98,21 +98,38 @@ def base_len(cfg, md_len):
     return R.header_len_of(cfg["idw"], cfg["seqw"]) + (8 if cfg["large"] else 4) + (2 if cfg["crc"] else 0) + (0 if md_len is None else 1 + md_len)
 
 
-def check_refusal(rec, cfg, state, n):
-    """segment metadata longer than 63 octets: refused (constructor or pack); octets are the violation"""
+REFUSAL_ROUTES = ["ctor", "setter/constructed-without-md", "setter/constructed-with-md", "setter/decoded"]
+
+
+def check_refusal(rec, cfg, state, n, route="ctor"):
+    """segment metadata longer than 63 octets: refused (constructor, setter or pack) whatever the route by which it
+    reaches the PDU; octets are the violation"""
     rec.case(True, ops=2)
     recipe = {"cfg": cfg, "params": {"offset": 1, "data": b"ab", "md": [state, md_pattern(n)]}}
-    case = {"kind": "refuse", "cfg": cfg, "state": state, "n": n}
+    case = {"kind": "refuse", "cfg": cfg, "state": state, "n": n, "route": route}
     unit = U.UNITS["FileDataPdu"]
+    sub = "FileDataPdu.pack" if route == "ctor" else f"FileDataPdu.segment_metadata=({route.split('/')[1]})"
     try:
-        raw = bytes(unit.build(recipe).pack())
+        if route == "ctor":
+            pdu = unit.build(recipe)
+        else:
+            base = dict(recipe["params"], md=None if route.endswith("without-md") else [3 - state, md_pattern(5)])
+            try:
+                pdu = unit.build({"cfg": cfg, "params": base})
+                if route == "setter/decoded":
+                    pdu = unit.cls().unpack(unit.ref({"cfg": cfg, "params": base}))
+            except Exception:
+                rec.count("refusal_route_start_not_available")
+                return  # the start object is the business of the encode / decode clauses
+            pdu.segment_metadata = U.L.SegmentMetadata(U.L.RecordContinuationState(state), md_pattern(n))
+        raw = bytes(pdu.pack())
     except unit.documented as e:
-        rec.outcome(f"md>{63}:{type(e).__name__}")
+        rec.outcome(f"md>{63}:{route}:{type(e).__name__}")
         return
     except Exception as e:
-        rec.violation(f"C07.refuse/FileDataPdu.pack/undocumented-exception/{type(e).__name__}", case, repr(e), "ValueError or a documented error")
+        rec.violation(f"C07.refuse/{sub}/undocumented-exception/{type(e).__name__}", case, repr(e), "ValueError or a documented error")
         return
-    rec.violation("C07.refuse/FileDataPdu.pack/metadata-longer-than-63-octets-packed", case, raw[:64], "refused")
+    rec.violation(f"C07.refuse/{sub}/metadata-longer-than-63-octets-packed", case, raw[:64], "refused")
 
 
 def check_maxseg(rec, cfg, md_len, m):
@@ -194,8 +211,9 @@ def run_shard(item):
             cfg = CFGS[ci]
             for n in REFUSED_MD_LENGTHS:
                 for state in range(4):
-                    check_refusal(rec, cfg, state, n)
-                    rec.count("metadata_refusal_cases")
+                    for route in REFUSAL_ROUTES:
+                        check_refusal(rec, cfg, state, n, route)
+                        rec.count("metadata_refusal_cases")
             if cfg["segctrl"] == 0:  # the helper does not look at segmentation control: 128 configurations
                 for md_len in (None, 0, 5, 63):
                     base = base_len(cfg, md_len)
@@ -212,7 +230,7 @@ def replay(case):
         rec.case(True, ops=U.OPS_PER_CASE)
         U.judge(rec, PROPERTY, None, U.UNITS[case["unit"]], case["recipe"], case.get("via", "class"), case.get("enc", True))
     elif case["kind"] == "refuse":
-        check_refusal(rec, case["cfg"], case["state"], case["n"])
+        check_refusal(rec, case["cfg"], case["state"], case["n"], case.get("route", "ctor"))
     elif case["kind"] == "maxseg":
         check_maxseg(rec, case["cfg"], case["md_len"], case["m"])
     return rec.result()
